@@ -13,13 +13,19 @@ import simnet
 from simnet import SimNet, Scheduler, Deadlock, PartyError, thresha
 import obs
 import common
+import comm_src
 
 LEVEL = 'proof'
-LEAN_MODULES = ['MpycV.Props.C07']
-LEAN_NAMESPACES = ['MpycV.C07']
+LEAN_MODULES = ['MpycV.Props.C07', 'MpycV.PropsGen.CommSrcTie']
+LEAN_NAMESPACES = ['MpycV.C07', 'MpycV.CommSrcTie']
 REQUIRED_THEOREMS = ['output_exactly_one_consumer', 'output_points', 'reshare_exactly_one_consumer',
                      'reshare_points', 'distribute_exactly_one_consumer', 'transfer_exactly_one_consumer',
-                     'transfer_arcs_exactly_one_consumer', 'transfer_routes']
+                     'transfer_arcs_exactly_one_consumer', 'transfer_routes',
+                     # source tie (PropsGen/CommSrcTie.lean): routing generated from the current runtime.py = model
+                     'outSends_src_eq', 'outRecvs_src_eq', 'outPoints_src_eq', 'reshSends_src_eq', 'reshRecvs_src_eq',
+                     'distSends_src_eq', 'distRecvs_src_eq', 'transferSends_src_eq', 'transferRecvs_src_eq',
+                     'output_exactly_one_consumer_src', 'output_points_src', 'transfer_exactly_one_consumer_src',
+                     'transfer_arcs_exactly_one_consumer_src', 'transfer_dict_mem_src']
 RULE = ('scenario = (m in 1..7, t with 2t<m, PRSS on/off, delivery schedule seed, operation in {transfer lists/arcs/dict, '
         'input, output with receiver subset and threshold t..2t, reshare}, sender/receiver subsets incl. ints, ranges, '
         'unsorted lists, empty sets, payload types); distinct = distinct scenario tuples; non-trivial = m >= 2 and at '
@@ -31,6 +37,11 @@ ASSUMPTIONS = ['simulator enforces the documented asyncio rules (harness/simnet.
 PAYLOADS = [lambda p: p, lambda p: f'str{p}', lambda p: bytes([p, 255, 0]), lambda p: [p, [p + 1, (p, 'x')]],
             lambda p: None, lambda p: {'k': p}, lambda p: 2**200 + p, lambda p: (p, -p, 0.5)]
 
+
+
+def generate(ctx):
+    """source translator: routing expressions of the current mpyc/runtime.py -> lean/MpycV/Generated/CommSrc.lean"""
+    comm_src.generate(ctx)
 
 def subset(rng, m, allow_empty=True):
     k = rng.randrange(0 if allow_empty else 1, m + 1)
